@@ -210,6 +210,9 @@ func Open(ctx context.Context, S3 S3Interface, cfg Config, opts OpenOptions, whe
 		if err != nil {
 			return nil, err
 		}
+		// A listed version may be retired (copied to merged/, then deleted
+		// from current/) by a concurrent committer before we get to read it.
+		persists = []mast.Persist{rootPersist, mergedPersist}
 		skipUnreadable = true
 	}
 	tree, mergedRoots, unmergeableRoots, err = mergeRoots(ctx, versionsToLoad, cfg, crdtConfig, persists, when, opts.ForceRebranch, &kvVersion, skipUnreadable)
